@@ -8,7 +8,7 @@ verus! {
 //@include prelude/replay.rs
 //@include prelude/paths.rs
 //@pure get
-//@world meta_keyspace.get_highest_seqno tree.insert tree.remove tree.remove_weak tree.clear keyspaces.get meta_keyspace.get_highest_seqno tree.get_highest_seqno seqno.fetch_max seqno.get keyspace_id_counter.fetch_max
+//@world snapshot_tracker.set meta_keyspace.get_highest_seqno tree.insert tree.remove tree.remove_weak tree.clear keyspaces.get meta_keyspace.get_highest_seqno tree.get_highest_seqno seqno.fetch_max seqno.get keyspace_id_counter.fetch_max
 
 //@extract src/db.rs :: Database :: recover as=replay_active world desugar_for_plain=0 desugar_for=1,2 props=C02+C03+C04+C12+C01
 //@anchor for batch in reader
@@ -91,6 +91,18 @@ verus! {
         // ... and of the meta keyspace (tree 0), whose tables are written at fresh seqnos by keyspace creation/deletion
         assert(highest(old(w).trees[0]) is Some ==> w.seqno > highest(old(w).trees[0])->Some_0); // [C11:counter-above-the-meta-tree]
     }
+//@end
+
+//@extract src/db.rs :: Database :: recover as=publish_recovered world props=C11+C06
+//@anchor snapshot_tracker.set(db.supervisor.seqno.get())
+//@sig fn publish_recovered(db: &Database) -> ()
+//@contract
+    requires old(w).recovering, !db.supervisor.seqno.is_visible@,
+    ensures true,
+//@proof before shim_slice_end
+    // C11 / C06: before any handle is given out, new snapshots are taken at (or above) the restored counter, so they see
+    // everything recovered (the counter is above every recovered seqno: restore_seqno)
+    proof { assert(w.visible >= w.seqno && w.seqno == old(w).seqno); } // [C11:new-snapshots-see-everything-recovered] [C06:new-snapshots-see-everything-recovered]
 //@end
 
 //@canary
